@@ -1905,6 +1905,72 @@ example :
   · exact ⟨by simp, by simp, by simp⟩
 
 
+/-! ## undo after an intermediate write: the file is a function of the CURRENT values, not of the history
+
+A write leaves the cells and flags alone (`C09_write_frame`); the cards of VOL / U / LAT / FILL are computed from the
+current cells at every write (`C09_values_only`); so a history that gives the data the values they had — with writes
+anywhere in between — writes each of them exactly once at the original value (`C09_undo`, from `C09_history`). -/
+
+/-- `write_to_file` (and any observation) leaves every value the file is a function of alone: the cells with their
+    data, the flags, `allow_mcnp_volume_calc`, `data_inputs`, the mode. Only the data-block importance trees change. -/
+theorem C09_write_frame (close : Rat → Rat → Bool) (st : St) :
+    (afterWrite close st).cells = st.cells ∧ (afterWrite close st).flags = st.flags ∧
+    (afterWrite close st).volCalc = st.volCalc ∧ (afterWrite close st).dataInputs = st.dataInputs ∧
+    (afterWrite close st).mode = st.mode := by
+  unfold afterWrite
+  split
+  · exact ⟨rfl, rfl, rfl, rfl, rfl⟩
+  · split
+    · split <;> exact ⟨rfl, rfl, rfl, rfl, rfl⟩
+    · exact ⟨rfl, rfl, rfl, rfl, rfl⟩
+
+/-- the data-block card of VOL / U / LAT / FILL and every cell card are functions of the CURRENT values (cells, flags,
+    `allow_mcnp_volume_calc`) only: `cell_modifier.py: _update_values` rebuilds the list from the cells at every write
+    (`update_with_new_values`), whatever an earlier write left in it -/
+theorem C09_values_only (close : Rat → Rat → Bool) (s t : St) (hc : s.cells = t.cells) (hf : s.flags = t.flags)
+    (hv : s.volCalc = t.volCalc) (k : K) (hk : k ≠ K.imp) :
+    formatDataInst close s k = formatDataInst close t k ∧
+    s.cells.map (formatCell close s.flags) = t.cells.map (formatCell close t.flags) := by
+  refine ⟨?_, by rw [hc, hf]⟩
+  unfold formatDataInst
+  rw [hc, hf, hv]
+  cases k <;> first | exact absurd rfl hk | rfl
+
+/-- UNDO, for ANY history with writes anywhere in it: if the history ends with the cells (and flags) it started with —
+    edits undone after intermediate writes — the file written then gives every cell, for VOL / U / LAT / FILL,
+    exactly the datum the ORIGINAL state holds, once, in the block the flag names, at the cell's index; and nothing to
+    a cell that holds none. Nothing of an earlier write (a jump where the datum was unset) survives. -/
+theorem C09_undo (close : Rat → Rat → Bool) (st : St) (hw : DataInputsOnce st)
+    (hrt : RTInv st.realTree st.nextId) (ops : List Op) (items : List MItem)
+    (h : writeToFile close (run close st ops) = .ok items)
+    (hc : (run close st ops).cells = st.cells) (hf : (run close st ops).flags = st.flags) :
+    ∀ (i : Nat) (c : Cell), st.cells[i]? = some c → ∀ (k : K), k ≠ K.imp → ∀ (p : P),
+      (∀ v, treeValue c k = .ok (some v) →
+        table (render items) i (convK k) p = [(if st.flags.get k then Blk.data else Blk.cell, v)]) ∧
+      (treeValue c k = .ok none → table (render items) i (convK k) p = []) := by
+  intro i c hi k hk p
+  have H := (C09_history close st hw hrt ops items h).2 i c (by rw [hc]; exact hi)
+  have := H.1 k hk p
+  rw [hf] at this
+  exact this
+
+/-- non-vacuity of `C09_undo`: unset (volume deleted, back to universe 0), WRITE, the values of the file again, WRITE -/
+example :
+    let eq : Rat → Rat → Bool := fun a b => a == b
+    let st : St := { cells := [⟨1, [⟨0, 1, [0]⟩], some 3, some 1, false, none, none, false, false, ⟨false, false, false, false, false⟩⟩,
+                               ⟨2, [⟨0, 1, [0]⟩], some 5, some 2, false, none, none, false, false, ⟨false, false, false, false, false⟩⟩,
+                               ⟨3, [⟨0, 0, [0]⟩], some 7, some 2, false, none, none, false, false, ⟨false, false, false, false, false⟩⟩],
+                     mode := [0], flags := ⟨true, true, true, true, true⟩, volCalc := true, dataInputs := [none],
+                     realTree := [], nextId := 0 }
+    let ops := [Op.setVol 1 none, Op.setUni 1 0, Op.write, Op.setVol 1 (some 5), Op.setUni 1 2, Op.write]
+    (run eq st ops).cells = st.cells ∧ (run eq st ops).flags = st.flags ∧
+    (∃ items, writeToFile eq (run eq st [Op.setVol 1 none, Op.setUni 1 0]) = .ok items ∧
+      table (render items) 1 (convK K.vol) 0 = [] ∧ table (render items) 1 (convK K.u) 0 = []) ∧
+    ∃ items, writeToFile eq (run eq st ops) = .ok items ∧
+      table (render items) 1 (convK K.vol) 0 = [(Blk.data, 5)] ∧ table (render items) 1 (convK K.u) 0 = [(Blk.data, 2)] := by
+  refine ⟨by rfl, by rfl, ⟨_, rfl, by decide, by decide⟩, _, rfl, by decide, by decide⟩
+
+
 /-! ## the cell's parameters tree: every modifier class keeps its place whatever else the card carries
 
 `Cell.format_for_mcnp_input` reaches a cell-level modifier only through its node in `cell._tree["parameters"]`
